@@ -1283,7 +1283,7 @@ def main(chk: core.Check) -> int:
     chk.rule = RULE
     c14_gen.regenerate(chk)  # T-brute: Generated/BruteForceMethods.lean, GridMethods.lean from _brute_force.py / _grid.py
     if not getattr(chk, "no_prove", False):
-        chk.prove(["OptunaVerif.Props.C14", c14_gen.MODULE])
+        chk.prove(["OptunaVerif.Props.C14", c14_gen.MODULE, "OptunaVerif.Props.C14GridResume"])
         c14_gen.explain_proof_failure(chk)
     quick = chk.tier == "quick"
     try:
